@@ -9,7 +9,7 @@ from __future__ import annotations
 from .. import nf
 from ..model import AnalysisError
 from ..values import Num
-from .common import GAS, OIL, POSITIVE, WATER, only, returns, run
+from .common import each, GAS, OIL, POSITIVE, WATER, only, returns, run
 from .gasdak import K45967, PPC, PR, RHO, TPC0, TR, Z, eos_residual, reduced_args
 
 LEVEL = "other"
@@ -60,38 +60,45 @@ def check(ctx):
             signature="real-gas law", ratio=nf.show(q, 200),
         )
 
-    # ---- C07-b oil: rho_o * Bo == a*gamma_o + b*gamma_g*Rs
+    # ---- C07-b oil: rho_o * Bo == a*gamma_o + b*gamma_g*Rs  (on every trace partition of the function)
     fo = P.func(OIL + "density_Standing")
     BQ, RQ = OIL + "b_o_Standing", OIL + "solution_gor_Standing"
-    rho_o = only(run(ctx, OIL + "density_Standing", opaque={BQ, RQ}), "density_Standing").value.nf
     own = ("temperature", "pressure", "api_gravity", "gas_specific_gravity", "solution_gor_initial")
-    bo = _expect_args(ctx, "C07-b", OIL + "density_Standing:Bo arguments", fo.where(), rho_o, BQ, own, "oil density divides by the library's b_o_Standing at the function's own arguments")
-    rs = _expect_args(ctx, "C07-b", OIL + "density_Standing:Rs arguments", fo.where(), rho_o, RQ, own, "oil density uses the library's solution_gor_Standing at the function's own arguments")
-    if bo is not None and rs is not None:
-        mass = nf.mul(rho_o, bo)
-        gamma_o = nf.div(nf.const_text("141.5"), nf.add(nf.const_text("131.5"), nf.sym("api_gravity")))
-        ref = nf.add(nf.mul(nf.const_text("62.37"), gamma_o), nf.mul(nf.mul(nf.const_text("0.0136"), nf.sym("gas_specific_gravity")), rs))
-        ctx.identity(
-            "C07-b", OIL + "density_Standing*b_o_Standing", fo.where(),
-            "oil density times Bo == 62.37*gamma_o + 0.0136*gamma_g*Rs (stock-tank oil plus dissolved gas), gamma_o = 141.5/(131.5+API)",
-            mass, ref,
-        )
-        # sibling: oil_compressibility_undersat_Standing builds the same mass content at the bubble point
-        fs = P.func(OIL + "oil_compressibility_undersat_Standing")
+    for tg, pth in each(run(ctx, OIL + "density_Standing", opaque={BQ, RQ}), "density_Standing"):
+        rho_o = pth.value.nf if isinstance(pth.value, Num) else {}
+        bo = _expect_args(ctx, "C07-b", OIL + "density_Standing:Bo arguments" + tg, fo.where(), rho_o, BQ, own, "oil density divides by the library's b_o_Standing at the function's own arguments")
+        rs = _expect_args(ctx, "C07-b", OIL + "density_Standing:Rs arguments" + tg, fo.where(), rho_o, RQ, own, "oil density uses the library's solution_gor_Standing at the function's own arguments")
+        if bo is not None and rs is not None:
+            mass = nf.mul(rho_o, bo)
+            gamma_o = nf.div(nf.const_text("141.5"), nf.add(nf.const_text("131.5"), nf.sym("api_gravity")))
+            ref = nf.add(nf.mul(nf.const_text("62.37"), gamma_o), nf.mul(nf.mul(nf.const_text("0.0136"), nf.sym("gas_specific_gravity")), rs))
+            ctx.identity(
+                "C07-b", OIL + "density_Standing*b_o_Standing" + tg, fo.where(),
+                "oil density times Bo == 62.37*gamma_o + 0.0136*gamma_g*Rs (stock-tank oil plus dissolved gas), gamma_o = 141.5/(131.5+API)",
+                mass, ref,
+            )
 
-    # ---- C07-c water: rho_w * Bw == rho_stp(salinity)
+    # ---- C07-c water: rho_w * Bw == rho_stp(salinity)  (on every trace partition)
     fw = P.func(WATER + "density_water_McCain")
     WQ = WATER + "b_water_McCain"
-    rho_w = only(run(ctx, WATER + "density_water_McCain", opaque={WQ}), "density_water_McCain").value.nf
-    bw = _expect_args(ctx, "C07-c", WATER + "density_water_McCain:Bw arguments", fw.where(), rho_w, WQ, ("temperature", "pressure"), "water density divides by the library's b_water_McCain at its own (T, p)")
-    if bw is not None:
-        mass = nf.mul(rho_w, bw)
-        ok = nf.symbols(mass) <= {"salinity"} and not _atoms_named(mass, WQ)
-        ctx.check(
-            ok, "C07-c", WATER + "density_water_McCain*b_water_McCain", fw.where(),
-            "water density times Bw depends on salinity only (brine density at standard conditions)",
-            signature="rho_w*Bw depends on p or T", product=nf.show(mass, 300),
-        )
+    S = nf.sym("salinity")
+    brine = nf.add(nf.add(nf.const_text("62.368"), nf.mul(nf.const_text("0.438603"), S)), nf.mul(nf.const_text("1.60074e-3"), nf.mul(S, S)))
+    for tg, pth in each(run(ctx, WATER + "density_water_McCain", opaque={WQ}), "density_water_McCain"):
+        rho_w = pth.value.nf if isinstance(pth.value, Num) else {}
+        bw = _expect_args(ctx, "C07-c", WATER + "density_water_McCain:Bw arguments" + tg, fw.where(), rho_w, WQ, ("temperature", "pressure"), "water density divides by the library's b_water_McCain at its own (T, p)")
+        if bw is not None:
+            mass = nf.mul(rho_w, bw)
+            ok = nf.symbols(mass) <= {"salinity"} and not _atoms_named(mass, WQ)
+            ctx.check(
+                ok, "C07-c", WATER + "density_water_McCain*b_water_McCain" + tg, fw.where(),
+                "water density times Bw depends on salinity only (brine density at standard conditions)",
+                signature="rho_w*Bw depends on p or T", product=nf.show(mass, 300),
+            )
+            ctx.identity(
+                "C07-c", WATER + "density_water_McCain:brine density" + tg, fw.where(),
+                "rho_w * Bw == 62.368 + 0.438603 S + 1.60074e-3 S^2 (McCain's brine density at standard conditions, S in weight percent of dissolved solids)",
+                mass, brine,
+            )
 
     # ---- C07-d gas compressibility == d ln(rho)/dp of the library's own equation of state
     # Parametrise the state by (Tr, rho, Z): pr := rho Tr Z / 0.27, and let z_factor_DAK(...) return the symbol Z,
